@@ -222,7 +222,7 @@ def units(tier, seed=0):
     pairs = [(dict(arch=7, vmsa=True), dict(arch=6)), (dict(arch=7), dict(arch=7, vmsa=True)),
              (dict(arch=6), dict(arch=7, sec=False))]
     for i, (own, fc) in enumerate(pairs):
-        rows_b = [r for r in ('LdrImmediateArmA1', 'StrRegisterT2', 'LdrexA1', 'MovRegisterArmA1', 'BxA1')
+        rows_b = [r for r in ('LdrImmediateArmA1', 'StrRegisterT1', 'LdrexA1', 'MovRegisterArmA1', 'BxA1')
                   if r in ISA and ISA[r].arch <= own['arch']]
         for u in famcheck.family_units(set(ISA[r].family for r in rows_b), [own['arch']], T,
                                        only=rows_b if tier != 'quick' else rows_b[:3],
